@@ -39,6 +39,26 @@ EXPECTED = {
 }
 
 
+def register_fragment_fields(index):
+    """the field names of ruletypes.StreamFragment, read from its
+    namedtuple definition, so that evaluated code may use `fragment.lineno`
+    on the tagged tuples `frag` builds"""
+    import ast
+    from .absint import TUPLE_FIELDS
+    rt = index.need('calmjs.parse.ruletypes')
+    for st in rt.tree.body:
+        if isinstance(st, ast.Assign) and any(
+                isinstance(t, ast.Name) and t.id == 'StreamFragment'
+                for t in st.targets) and isinstance(st.value, ast.Call) \
+                and len(st.value.args) == 2 and isinstance(
+                    st.value.args[1], (ast.List, ast.Tuple)):
+            TUPLE_FIELDS['frag'] = tuple(
+                e.value for e in st.value.args[1].elts
+                if isinstance(e, ast.Constant))
+            return TUPLE_FIELDS['frag']
+    return None
+
+
 def frag(*a):
     return ('frag',) + tuple(a)
 
